@@ -70,6 +70,8 @@ def fold_instances(tier, seed, start_id=1):
         for b in range(a, len(OPS)):
             for x, y in ((1, 2), (2, 2), (2, 3), (0, 1), (3, 1)):
                 pairsets.append([(OPS[a], argfor(OPS[a], x)), (OPS[b], argfor(OPS[b], y))])
+                if a != b and (x, y) in ((2, 2), (1, 2)):      # the same two filters written in the other order (how limits combine must not depend on it)
+                    pairsets.append([(OPS[b], argfor(OPS[b], y)), (OPS[a], argfor(OPS[a], x))])
     for name, cextra, body_props, body_edges, siblings, *rest in decorations():
         xargs = rest[0] if rest else {}; coerce = rest[1] if len(rest) > 1 else ""
         for fs in filtersets + (pairsets if name in ("nothing", "count_output", "tag_sibling_fold") else []):
